@@ -49,6 +49,11 @@ pub enum ReqKind {
     Known(usize),
     Unknown(usize),
     Malformed(Malf),
+    /// Declared length too large to ever send (e.g. 2^64-1); no body bytes follow.
+    HugeKnown(u64),
+    /// A transfer coding (chunked and/or gzip): reported to the handler, refused when read.
+    /// The usize is the number of (undecoded) body bytes that follow the head.
+    Coded(usize),
 }
 
 #[derive(Clone, Debug)]
@@ -61,15 +66,36 @@ pub struct Req {
     pub body_seed: u32,
     pub plan: Plan,
     pub extra_headers: Vec<(String, String)>,
+    /// When set, these exact bytes are the head (the generator knows what it wrote).
+    pub raw_head: Option<Vec<u8>>,
+    /// When set, the body bytes to send (instead of generated content).
+    pub raw_body: Option<Vec<u8>>,
+    /// What the handler must be told: (content type Debug text, expect flag, cookies, chunked, gzip).
+    pub meta: Option<Meta>,
+}
+#[derive(Clone, Debug, PartialEq, Eq)]
+pub struct Meta {
+    pub ctype: Option<String>,
+    pub expect: Option<bool>,
+    pub cookies: Option<std::collections::BTreeMap<String, String>>,
+    pub chunked: bool,
+    pub gzip: bool,
+    pub content_length: Option<u64>,
 }
 impl Req {
     pub fn body(&self) -> Vec<u8> {
+        if let Some(b) = &self.raw_body {
+            return b.clone();
+        }
         match self.kind {
-            ReqKind::Known(n) | ReqKind::Unknown(n) => content(self.body_seed, n),
+            ReqKind::Known(n) | ReqKind::Unknown(n) | ReqKind::Coded(n) => content(self.body_seed, n),
             _ => Vec::new(),
         }
     }
     pub fn head(&self) -> Vec<u8> {
+        if let Some(h) = &self.raw_head {
+            return h.clone();
+        }
         let mut s = String::new();
         match &self.kind {
             ReqKind::Malformed(Malf::RequestLine) => s.push_str(&format!("{} {}\r\n", self.method, self.path)),
@@ -97,7 +123,7 @@ impl Req {
     pub fn has_pending_body(&self, cfg: &ServerCfg) -> bool {
         match self.kind {
             ReqKind::Known(n) => n > cfg.small_body_len,
-            ReqKind::Unknown(_) => true,
+            ReqKind::Unknown(_) | ReqKind::HugeKnown(_) | ReqKind::Coded(_) => true,
             _ => false,
         }
     }
@@ -108,6 +134,7 @@ pub struct ExpCall {
     pub path: String,
     pub pending: bool,
     pub body: Option<Vec<u8>>,
+    pub meta: Option<Meta>,
 }
 
 #[derive(Clone, Debug)]
@@ -163,6 +190,7 @@ pub fn model_conn(reqs: &[Req], cfg: &ServerCfg) -> ConnExpect {
                 path: r.path.clone(),
                 pending: false,
                 body: Some(body),
+                meta: r.meta.clone(),
             });
             match &r.plan.on_ready {
                 OnReady::Respond => {
@@ -201,12 +229,48 @@ pub fn model_conn(reqs: &[Req], cfg: &ServerCfg) -> ConnExpect {
                 }
                 ready_phase(&mut e, r.body(), false)
             }
+            ReqKind::HugeKnown(n) => {
+                e.calls.push(ExpCall { path: r.path.clone(), pending: true, body: None, meta: r.meta.clone() });
+                match &r.plan.on_pending {
+                    OnPending::Respond => e.resps.push(plan_resp(&r.plan.resp)),
+                    OnPending::GetBody(m) | OnPending::RecvBody(m) => {
+                        if matches!(r.plan.on_pending, OnPending::RecvBody(_)) || cfg.cache_dir.is_some() {
+                            // the declared length exceeds any limit we generate
+                            assert!(*n > *m);
+                            e.resps.push(lib_resp(413, "Uploaded data is too big."));
+                        } else {
+                            e.resps.push(lib_resp(500, "Internal server error"));
+                        }
+                    }
+                    OnPending::Drop => {}
+                    OnPending::Panic => e.resps.push(lib_resp(500, "Server error")),
+                }
+                false
+            }
+            ReqKind::Coded(_) => {
+                e.calls.push(ExpCall { path: r.path.clone(), pending: true, body: None, meta: r.meta.clone() });
+                match &r.plan.on_pending {
+                    OnPending::Respond => e.resps.push(plan_resp(&r.plan.resp)),
+                    OnPending::GetBody(_) | OnPending::RecvBody(_) => {
+                        if cfg.cache_dir.is_some() {
+                            // refused when the body is read
+                            e.resps.push(lib_resp(400, "HttpError::UnsupportedTransferEncoding"));
+                        } else {
+                            e.resps.push(lib_resp(500, "Internal server error"));
+                        }
+                    }
+                    OnPending::Drop => {}
+                    OnPending::Panic => e.resps.push(lib_resp(500, "Server error")),
+                }
+                false
+            }
             ReqKind::Known(n) | ReqKind::Unknown(n) => {
                 let unknown = matches!(r.kind, ReqKind::Unknown(_));
                 e.calls.push(ExpCall {
                     path: r.path.clone(),
                     pending: true,
                     body: None,
+                    meta: r.meta.clone(),
                 });
                 let fetch = |e: &mut ConnExpect, m: u64, ready: &mut dyn FnMut(&mut ConnExpect, Vec<u8>, bool) -> bool| -> bool {
                     if cfg.cache_dir.is_none() {
@@ -312,6 +376,29 @@ pub fn check_conn(prop: &str, conn_label: &str, exp: &ConnExpect, calls: &[Call]
                         &format!("{prop}.handler_runs"),
                         format!("{conn_label}: handler run #{i} for {} had pending={} but the model says pending={}", c.path, c.pending, e.pending),
                     );
+                }
+                if let Some(m) = &e.meta {
+                    if let Some(ct) = &m.ctype {
+                        if ct != &c.ctype {
+                            return v(&format!("{prop}.request_metadata"), format!("{conn_label}: {} content type {:?}, the header fields give {ct:?}", c.path, c.ctype));
+                        }
+                    }
+                    if let Some(x) = m.expect {
+                        if x != c.expect {
+                            return v(&format!("{prop}.request_metadata"), format!("{conn_label}: {} expect flag {}, the header fields give {x}", c.path, c.expect));
+                        }
+                    }
+                    if let Some(ck) = &m.cookies {
+                        if ck != &c.cookies {
+                            return v(&format!("{prop}.request_metadata"), format!("{conn_label}: {} cookies {:?}, the header fields give {ck:?}", c.path, c.cookies));
+                        }
+                    }
+                    if m.chunked != c.chunked || m.gzip != c.gzip {
+                        return v(&format!("{prop}.coding_reported"), format!("{conn_label}: {} reported chunked={} gzip={}, the header fields say chunked={} gzip={}", c.path, c.chunked, c.gzip, m.chunked, m.gzip));
+                    }
+                    if m.content_length != c.content_length {
+                        return v(&format!("{prop}.request_metadata"), format!("{conn_label}: {} content_length {:?}, the header fields give {:?}", c.path, c.content_length, m.content_length));
+                    }
                 }
                 if let Some(b) = &e.body {
                     match &c.body {
